@@ -289,8 +289,11 @@ def rel_suffix(job, outs):
     # two histories sharing a suffix: final outputs must agree
     a, b = outs[0][-1], outs[1][-1]
     if not tol_eq(job, a, b, job.params.get("scale", 1)):
+        def show(xs):
+            xs = [str(x) for x in xs]
+            return xs if len(xs) <= 60 else "[%d values ending in %s]" % (len(xs), xs[-12:])
         return ("histories %s and %s share their last %s values but yield different outputs"
-                % ([str(x) for x in job.streams[0]], [str(x) for x in job.streams[1]], job.params.get("K")), a, b)
+                % (show(job.streams[0]), show(job.streams[1]), job.params.get("K")), a, b)
 
 
 def rel_same(job, outs):
@@ -462,7 +465,7 @@ class NoPanic(Job):
             for l in lines:
                 if l.startswith("P"):
                     return dict(explanation="panic (%s, %s) on %s" % (l[2:], name, gen.render(self.e, self.mode)), expected="no panic", actual=l)
-                if l.startswith("S") and self.mode == "f":
+                if l.startswith("S") and self.mode in ("f", "s"):
                     v = dec_f(l[2:])
                     if v != v or abs(v) == float("inf"):
                         return dict(explanation="non-finite output (%s)" % name, expected="finite", actual=l)
